@@ -271,7 +271,7 @@ pub fn gen_value(dt: &FieldDataType, n: usize, e: &mut Ent, utf8_only: bool) -> 
         }
         8 if *dt == FieldDataType::String => utf8_fill(n, e),
         // one-byte fields are mostly small enumerations (direction, end reason, IP version)
-        8 | 9 if n == 1 => vec![e.next() % 8],
+        8 | 9 if n == 1 => vec![[0u8, 1, 2, 3, 4, 5, 6, 7, 6, 17, 17, 58][e.next() as usize % 12]],
         _ => (0..n).map(|_| e.next()).collect(),
     }
 }
@@ -535,6 +535,16 @@ fn build_sets(
                                     let mut c = p.clone();
                                     let src: Vec<u8> = p[*oj..*oj + *wi].to_vec();
                                     c[*oi..*oi + *wi].copy_from_slice(&src);
+                                    // ... and the other field moves on a little (start = the
+                                    // predecessor's end, end = that end + a bit)
+                                    if matches!(ti, FieldDataType::UnsignedDataNumber | FieldDataType::DurationSeconds | FieldDataType::DurationMillis | FieldDataType::DurationMicros | FieldDataType::DurationNanos) && *wi <= 8 {
+                                        let mut x = src.iter().fold(0u64, |a, b| a << 8 | u64::from(*b));
+                                        x = x.wrapping_add(1 + u64::from(e.next() % 64));
+                                        if *wi < 8 {
+                                            x &= (1u64 << (8 * *wi)) - 1;
+                                        }
+                                        c[*oj..*oj + *wi].copy_from_slice(&x.to_be_bytes()[8 - *wi..]);
+                                    }
                                     rec.0 = c;
                                 }
                             }
